@@ -4,6 +4,10 @@ import json, os
 HERE = os.path.dirname(os.path.dirname(os.path.abspath(__file__)))
 
 CHECKS = {
+ 'C08': dict(level='model_checking', design='2/C08',
+   technique='deviation-bounded DFS over WINDOW_ADJUST grant sequences against a window ledger kept by an independent peer; exhaustive bounded enumeration of hostile data/pause/resume sequences; deviation-bounded DFS over delivery and reader-wakeup interleavings of the real stream API for deadlock',
+   text='Sender: for each role, initial window, max packet and write list, every 5-grant sequence from a menu within the deviation bound: ledger never negative, no packet above the max packet size, all data + EOF delivered once enough is granted. Receiver: every op sequence up to depth 4 (thorough 5) over data packets sized around the window, extended data, pause and resume: excess over the advertised window is a ProtocolError also while paused, legal data is accepted, and reading restores the window. Deadlock: real client/server stream sessions, write sizes around the window, reader call menus incl. a reader that lags behind delivery, all packet-delivery/wakeup interleavings within the bound: the reader always finishes with all bytes.',
+   note='max-packet-size on the receive side is not part of the property (observation only); windows up to 2^32-1 exercised on the send side only.'),
  'C06': dict(level='model_checking', design='2/C06',
    technique='exhaustive enumeration of (message type x shape x dialogue position x role x strict-kex) injections by an independent scripted peer into a real endpoint on the controlled loop, compared with the un-injected baseline run',
    text='For each role under test, each of ~10 positions of the dialogue (every own-message boundary of the initial exchange, service, auth with a request outstanding, client parked in an asynchronous credential callback, channel open/request, end), each message type 1..100,192,255 and each shape (well-formed, truncated, trailing byte), with and without strict kex, the injected run must end the connection or, for messages legal at that position / RFC-ignorable, proceed exactly like the baseline. Strict kex: anything extra in the initial exchange is fatal, and a peer that does not restart its sequence number at NEWKEYS is rejected. Thorough adds ordered pairs.',
